@@ -570,6 +570,20 @@ _REAL_LOCK_TYPE = type(threading.Lock())
 _REAL_RLOCK_TYPE = type(threading.RLock())
 
 
+def _import_all():
+    import importlib
+    import pkgutil
+
+    import reactivex
+    for m in pkgutil.walk_packages(reactivex.__path__, "reactivex."):
+        if any(x in m.name for x in (".mainloop", "eventlet", "gevent", "tornado", "twisted", "ioloop")):
+            continue
+        try:
+            importlib.import_module(m.name)
+        except Exception:  # optional dependencies
+            pass
+
+
 def patch(sim, shim):
     """Rebind, by object identity, every reactivex module global that is the threading module or one of
     its primitives (and concurrent.futures' executor/future) to the simulator's equivalents; swap
@@ -585,6 +599,8 @@ def patch(sim, shim):
         id(cf.ThreadPoolExecutor): "ThreadPoolExecutor", id(cf.Future): "Future",
     }
     global _PATCH_PLAN, _PATCH_NMODS
+    if _PATCH_PLAN is None:
+        _import_all()  # lazily imported modules (reactivex.run, operators imported inside functions) must be patched too
     nmods = len(sys.modules)
     if _PATCH_PLAN is None or nmods != _PATCH_NMODS:
         plan = []  # (object, attribute, what) computed once per set of loaded modules
